@@ -9,7 +9,6 @@ def jobs(tier):
 META = {
     "trusted_base": D.DFS_TRUSTED,
     "assumptions": ["tracks of at most 16 KiB; bit-stream stride 1 (HxC MFM) or 2 (HFE side interleave)"],
-    "outside": ["the track state machines decode_fm_track / decode_mfm_track and read_all_sectors (STL state machines with a capturing lambda and std::sort): the end-to-end clause of C05 is undecided",
-                "copy_hfe (HFE v3 opcodes), PicTrack, HFE/HxC adapters' sector lookup: not yet under contract"],
-    "explanation": "leaf lemmas the decoders rest on: reverse_bit_order is the bit reversal; BitStream::raw_pos/rawbit/getbit/size address bit (bitpos*stride+first) LSB-first in the byte vector; little-endian field decoding of the HxC header",
+    "outside": ["copy_hfe for HFEv3 tracks (opcodes); the rest of read_all_sectors (file reads, bit reversal by std::transform, per-track count check); compute_geometry (std::set): the end-to-end 'same sectors as the .ssd' clause is undecided"],
+    "explanation": "reverse_bit_order is the bit reversal; BitStream::raw_pos/rawbit/getbit/size address bit (bitpos*stride+first) LSB-first in the byte vector; copy_hfe (v1) copies each block byte for byte, bit-reversed; side h of a track is the blocks 2k+h; an MFM byte is delivered only under the MFM clock rule; HxC header fields and track list (read up to the last track of the last side); PicTrack::track_len rounds up to 512; both flux adapters return the sector whose ID is (lba / S, side, lba % S) or nothing",
 }
